@@ -269,12 +269,15 @@ class MListOf(Ty):
         n = interp.st.fresh_int(name + '.len')
         interp.st.assume(n >= 0)
         m.length = n
+        m.new_base()
         return m
 
 
 def _mshape(ty):
     if isinstance(ty, FixedList):
         return ('tuple', tuple(_mshape(t) for t in ty.elems))
+    if isinstance(ty, Inst) and ty.tuple_items is None:
+        return ('inst', ty.cls, tuple((a, _mshape(ty.fields[a])) for a in sorted(ty.fields)))
     if isinstance(ty, _Int):
         return ('int',)
     if isinstance(ty, _Bool):
@@ -282,6 +285,29 @@ def _mshape(ty):
     if isinstance(ty, _Str):
         return ('str',)
     raise Unsupported('MListOf element type %r' % (ty,))
+
+
+class Measure:
+    """A left fold over a list, usable in clauses and loop invariants:
+        h([]) == init,   h(xs + [x]) == step(h(xs), x, *params)        (h(xs, *params) to apply it)
+    Natively it is computed.  In proofs it is computed on lists built by the code; on an `MListOf` list it
+    is a ghost value of the list: unknown (of shape ``shape``) when the list is havocked at a loop head or
+    comes out of a contract, and updated by `step` at every append / extend the code performs."""
+
+    def __init__(self, name, init, step, shape):
+        self.name = name
+        self.init = init
+        self.step = step
+        self.shape = shape
+
+    def __call__(self, xs, *params):
+        acc = self.init
+        for x in xs:
+            acc = self.step(acc, x, *params)
+        return acc
+
+    def __repr__(self):
+        return '<Measure %s>' % self.name
 
 
 class IterOf(Ty):
